@@ -7,6 +7,7 @@ RULE = ("databases with the same label text in several kinds and directions, lab
         "random.choice driven over every candidate index, plus near-miss texts (case change, trailing blank, generic<->specific); "
         "label-based impersonation with an explicitly passed EMPTY database while the process default is loaded must raise DatabaseError; label-based impersonate_tcp/mtu (base packets SYN / SYN+ACK also with ECE, CWR, PSH, URG, NS set) is checked to use a record of that label, kind and direction; non-trivial = >= 1 candidate")
 ASSUMPTIONS = ["random.choice is replaced by an indexable stub (the real draw is uniform over the same candidate list)"]
+GEN_TIE = "file"   # Label.parse / Label.dump / MTULabel.parse and the file parser that attaches labels to records are also TRANSLATED (translate/file2coq.py) on every run and proved equal to the model (Gen/GenFileP.v)
 EXHAUSTIVE = {"random.choice index over all candidates of every lookup": True}
 SECS = ["mtu", "tcp_req", "tcp_resp", "http_req", "http_resp"]
 
